@@ -90,6 +90,14 @@ def tokenize : Nat → List Char → List Tok
       (if n < 4294967296 then .count n else .error) :: tokenize fuel r
     else .error :: tokenize fuel cs
 
+/-- `formula_symbols`: the element symbols of a text that has the shape of a formula (symbols and
+counts only) -/
+def formulaSymbols (name : String) : Option (List String) :=
+  if name.isEmpty then none else
+  let ts := tokenize (name.length + 1) name.toList
+  if ts.any (fun t => t == .error) then none
+  else some (ts.filterMap fun t => match t with | .symbol s => some s | _ => none)
+
 /-- Σ countᵢ · molarMass(symᵢ) over the token list; `none` = not a formula of known symbols -/
 def sumLoop (molarMass : String → Option Rat) : List Tok → Rat → Option Rat
   | [], acc => some acc
